@@ -459,7 +459,7 @@ def collect_rw(b, rd, wrt):
 # ---------------------------------------------------------------------------------------------
 
 SRC = """import cohdl
-from cohdl import std, Port, Bit, BitVector, Signal, Temporary, Variable, Unsigned
+from cohdl import std, Port, Bit, BitVector, Signal, Temporary, Variable, Unsigned, vhdl
 
 
 class H:
@@ -872,6 +872,23 @@ def source_grid(ck):
                                                                "self.e[self.ix - 1] <<= self.p", "await self.p",
                                                                "self.c <<= self.vin[self.ix + 1]"]]],
                       {"construct": "implicit-index", "shape": "states", "def_at": "compiler", "use_at": "same statement", "proc": "coro"}))
+    # ---- results of inline code (f"{vhdl[T]: ...}") are intermediates like any other expression result
+    IC = 'f"{vhdl[Bit]:{self.b!r} or {self.p!r}}"'
+    ic = [
+        ("plain", [f"t = {IC}", "self.c <<= t"], None, ("comb", "clk")),
+        ("use-in-if", [f"t = {IC}", "if self.q:", "    self.c <<= t"], None, ("comb", "clk")),
+        ("def-in-if-use-after", ["if self.q:", f"    t = {IC}", "self.c <<= t"], "t (defined in the if body only)", ("comb", "clk")),
+        ("def-in-else-use-after", ["if self.q:", "    self.d <<= self.b", "else:", f"    t = {IC}", "self.c <<= t"],
+         "t (defined in the else body only)", ("comb", "clk")),
+        ("def-in-match-use-after", ["match self.a:", '    case "00":', f"        t = {IC}", "    case _:", "        pass", "self.c <<= t"],
+         "t (defined in one case only)", ("comb", "clk")),
+        ("def-use-across-await", [f"t = {IC}", "await self.q", "self.c <<= t"], "t (computed in another state)", ("coro",)),
+    ]
+    for nm, lines, bad, kinds_ in ic:
+        cnt[0] += 1
+        for kd in kinds_:
+            progs.append(Prog(f"g{cnt[0]:04d}_{kd}", kd, [["rawx", lines, bad]],
+                              {"construct": "inline-code", "shape": nm, "def_at": "inline code", "use_at": "after", "proc": kd}))
     # ---- select_with: the result is an intermediate; without default it is defined only for the listed selector values
     sw = [
         ("default", ['self.c <<= cohdl.select_with(self.a, {"00": self.b, "01": self.p}, default=self.q)'], None),
